@@ -76,7 +76,7 @@ def h2(a, b): return a * 2 - b
 def ident(x): return x
 def h3(x): return h1(x) * 2 + h2(x, 1)
 def hkw(x): return h2(b=x, a=G2)
-def hkw2(x, y): return ident(x) + hkw(y) + h2(b=1, a=y)
+def hkw2(x, y): return h1(x) + hkw(y) + h2(b=1, a=y)
 def hsel(s, k): return s.Where(lambda v: v > k).Count()
 def hshadow(x): return h1((lambda x: x + 100)(x)) + x
 
@@ -115,6 +115,30 @@ def comp_template(rng) -> str:
     elt = rng.choice([f"{t} + 1", f"{t} * G2", f"h1({t})", f"({t}, 1)[0]"])
     kind = rng.choice(["[{}]", "[{}]", "Count({})", "Count([{}])"])
     return kind.format(f"{elt} for {t} in {it}{cond}")
+
+
+# names that are FREE in the bodies of the helpers above (the globals / other helpers they use)
+HELPER_FREE = {"h1", "h2", "hkw", "G2", "G1", "Cfg"}
+
+
+def reverse_capture_family(body: str) -> bool:
+    """the call-site pattern of the open finding: a lambda parameter / comprehension variable of the passed lambda is
+    spelled like a name that is free in the body of a helper the lambda calls (it captures that name after inlining)"""
+    try:
+        tree = ast.parse(body, mode="eval")
+    except SyntaxError:
+        return False
+    binders = set()
+    for n in ast.walk(tree):
+        if isinstance(n, ast.Lambda):
+            binders |= {a.arg for a in n.args.args}
+        elif isinstance(n, ast.comprehension):
+            binders |= {x.id for x in ast.walk(n.target) if isinstance(x, ast.Name)}
+    calls = {n.func.id for n in ast.walk(tree) if isinstance(n, ast.Call) and isinstance(n.func, ast.Name)}
+    free = {"h3": {"h1", "h2"}, "hkw": {"h2", "G2"}, "hkw2": {"h1", "hkw", "h2", "G2"}, "hl": {"G2"}, "hshadow": {"h1"},
+            "sel_twice": {"G1", "Cfg"}}
+    used = set().union(*[free.get(c, set()) for c in calls]) if calls else set()
+    return bool(binders & used)
 
 
 def gen_body(rng, focus: str = "") -> Tuple[str, set]:
@@ -356,7 +380,8 @@ def run_cases(ctx, n: int, focus: str):
                     break
             if bad:
                 ctx.violate({"body": body, "c1": c1, "recorded_lambda": ast.unparse(lam), **bad},
-                            "the recorded lambda does not compute what the Python lambda computes")
+                            "the recorded lambda does not compute what the Python lambda computes",
+                            key=(focus + "-name-capture-on-inlining") if reverse_capture_family(body) else None)
             # ---- history: rebind / delete captured names after the call
             saved = {}
             hist = []
